@@ -40,6 +40,10 @@ def sh(cmd, cwd=None, env=None, timeout=7200):
 
 
 def build_impl(release=False):
+    shim = os.path.join(BUILD, 'timeshim.so')
+    src = os.path.join(VERIF, 'harness', 'timeshim.c')
+    if not os.path.exists(shim) or os.path.getmtime(shim) < os.path.getmtime(src):
+        sh(['cc', '-shared', '-fPIC', '-O2', '-o', shim, src, '-ldl'])
     cmd = ['cargo', 'build', '--offline', '--target-dir', os.path.join(BUILD, 'cargo')]
     if release:
         cmd.append('--release')
